@@ -11,9 +11,13 @@ import (
 	"os"
 
 	"github.com/sarchlab/akita/v5/hooking"
+	"github.com/sarchlab/akita/v5/mem"
+	"github.com/sarchlab/akita/v5/mem/idealmemcontroller"
+	"github.com/sarchlab/akita/v5/mem/memprotocol"
 	"github.com/sarchlab/akita/v5/messaging"
 	"github.com/sarchlab/akita/v5/modeling"
 	"github.com/sarchlab/akita/v5/noc/directconnection"
+	"github.com/sarchlab/akita/v5/simulation"
 	"github.com/sarchlab/akita/v5/timing"
 
 	"verif/harness/internal/reg"
@@ -21,10 +25,11 @@ import (
 
 // Action is one scripted step of a component activation.
 type Action struct {
-	Op   string `json:"op"` // send | wake
+	Op   string `json:"op"` // send | wake | read | write
 	Port string `json:"port,omitempty"`
 	Dst  string `json:"dst,omitempty"`
-	D    int    `json:"d,omitempty"` // wake: delay in ps
+	D    int    `json:"d,omitempty"`    // wake: delay in ps
+	Addr int    `json:"addr,omitempty"` // read / write: address (4-byte accesses)
 }
 
 // PortCfg describes one port.
@@ -38,7 +43,9 @@ type PortCfg struct {
 // CompCfg describes one scripted component.
 type CompCfg struct {
 	Name   string     `json:"name"`
-	Kind   string     `json:"kind"`   // tick | ed
+	Kind   string     `json:"kind"`   // tick | ed | mem (ideal memory controller, ports Top/Control)
+	Cap    int        `json:"cap,omitempty"`     // mem: storage capacity in bytes
+	Latency int       `json:"latency,omitempty"` // mem: latency in cycles
 	Period int        `json:"period"` // ps (ticking components)
 	Drain  bool       `json:"drain"`  // retrieves everything on every activation
 	Stall  int        `json:"stall"`  // number of initial activations during which it does not retrieve
@@ -74,31 +81,43 @@ type tracer struct {
 func (t *tracer) add(m map[string]any) { t.recs = append(t.recs, m) }
 
 type sys struct {
-	cfg     SysCfg
-	eng     *timing.SerialEngine
-	tr      *tracer
-	ports   map[string]messaging.Port
-	comps   map[string]*scomp
-	nextMsg uint64
-	sent    map[uint64]testMsg
-	bad     []string
+	cfg   SysCfg
+	eng   *timing.SerialEngine
+	sim   *simulation.Simulation
+	tr    *tracer
+	ports map[string]messaging.Port
+	comps map[string]*scomp
+	bad   []string
+
+	withIDs bool // include event IDs in act records (determinism / checkpoint comparisons)
 }
+
+func payloadOf(id uint64) string { return fmt.Sprintf("payload-%d", id) }
 
 type scomp struct {
 	s      *sys
 	cfg    CompCfg
-	act    int
-	ed     *modeling.EventDrivenComponent[edSpec, edState, modeling.None]
-	tc     *modeling.Component[edSpec, edState, modeling.None]
-	ports  []messaging.Port
-	owner  messaging.Component
+	ed    *modeling.EventDrivenComponent[edSpec, edState, modeling.None]
+	tc    *modeling.Component[edSpec, edState, modeling.None]
+	ports []messaging.Port
+	owner messaging.Component
+}
+
+func (c *scomp) state() *edState {
+	if c.ed != nil {
+		return &c.ed.State
+	}
+	return &c.tc.State
 }
 
 type edSpec struct {
-	Kind string `json:"kind"`
+	Kind   string `json:"kind"`
+	Period int    `json:"period"`
+	Script int    `json:"script"` // length of the script (part of the configuration)
 }
 type edState struct {
-	Activations int `json:"activations"`
+	Activations int    `json:"activations"`
+	Received    uint64 `json:"received"` // running checksum of everything retrieved
 }
 
 func freqOf(periodPs int) timing.Freq {
@@ -115,16 +134,25 @@ func freqOf(periodPs int) timing.Freq {
 // activation runs one scripted activation; returns progress.
 func (c *scomp) activation(now timing.VTimeInPicoSec) bool {
 	s := c.s
-	k := c.act
-	c.act++
+	st := c.state()
+	k := st.Activations
+	st.Activations++
 	progress := false
 	if c.cfg.Drain && k >= c.cfg.Stall {
 		for _, p := range c.ports {
 			for p.PeekIncoming() != nil {
-				m := p.RetrieveIncoming().(testMsg)
-				want, ok := s.sent[m.ID]
-				if !ok || want != m {
-					s.bad = append(s.bad, fmt.Sprintf("message %d arrived modified or unknown at %s: %+v vs %+v", m.ID, p.Name(), m, want))
+				msg := p.RetrieveIncoming()
+				meta := msg.Meta()
+				st.Received = st.Received*1000003 + uint64(len(meta.Src)) + uint64(meta.TrafficBytes%7)
+				_ = meta
+				if m, ok := msg.(testMsg); ok {
+					if m.Payload != payloadOf(m.ID) || m.TrafficBytes != 8 || m.TrafficClass != "t" || string(m.Dst) != p.Name() {
+						s.bad = append(s.bad, fmt.Sprintf("message %d arrived modified at %s: %+v", m.ID, p.Name(), m))
+					}
+				} else if d, ok := msg.(memprotocol.DataReadyRsp); ok {
+					for _, b := range d.Data {
+						st.Received = st.Received*31 + uint64(b)
+					}
 				}
 				progress = true
 			}
@@ -136,11 +164,22 @@ func (c *scomp) activation(now timing.VTimeInPicoSec) bool {
 			case "send":
 				p := s.ports[a.Port]
 				if p.CanSend() {
-					s.nextMsg++
-					m := testMsg{MsgMeta: messaging.MsgMeta{ID: s.nextMsg, Src: p.AsRemote(), Dst: messaging.RemotePort(a.Dst),
-						TrafficClass: "t", TrafficBytes: int(s.nextMsg) * 3}, Payload: fmt.Sprintf("payload-%d", s.nextMsg)}
-					s.sent[m.ID] = m
+					id := timing.GetIDGenerator().Generate()
+					m := testMsg{MsgMeta: messaging.MsgMeta{ID: id, Src: p.AsRemote(), Dst: messaging.RemotePort(a.Dst),
+						TrafficClass: "t", TrafficBytes: 8}, Payload: payloadOf(id)}
 					p.Send(m)
+					progress = true
+				}
+			case "read", "write":
+				p := s.ports[a.Port]
+				if p.CanSend() {
+					id := timing.GetIDGenerator().Generate()
+					meta := messaging.MsgMeta{ID: id, Src: p.AsRemote(), Dst: messaging.RemotePort(a.Dst), TrafficClass: "mem", TrafficBytes: 4}
+					if a.Op == "read" {
+						p.Send(memprotocol.ReadReq{MsgMeta: meta, Address: uint64(a.Addr), AccessByteSize: 4})
+					} else {
+						p.Send(memprotocol.WriteReq{MsgMeta: meta, Address: uint64(a.Addr), Data: []byte{byte(k), byte(k >> 8), byte(a.Addr), 0x5a}})
+					}
 					progress = true
 				}
 			case "wake":
@@ -173,64 +212,144 @@ func (s *sys) Func(ctx hooking.HookCtx) {
 		if _, ok := evt.(modeling.TimerFiredEvent); ok {
 			kind = "wake"
 		}
-		s.tr.add(map[string]any{"e": "act", "c": evt.HandlerID(), "t": int(evt.Time()), "k": kind})
+		rec := map[string]any{"e": "act", "c": evt.HandlerID(), "t": int(evt.Time()), "k": kind}
+		if s.withIDs {
+			if te, ok := evt.(modeling.TickEvent); ok {
+				rec["id"] = int(te.ID)
+			} else if we, ok := evt.(modeling.TimerFiredEvent); ok {
+				rec["id"] = int(we.ID)
+			}
+		}
+		s.tr.add(rec)
 	case timing.HookPosAfterEvent:
 		evt := ctx.Item.(timing.Event)
-		if _, isConn := s.comps[evt.HandlerID()]; !isConn {
+		if _, scripted := s.comps[evt.HandlerID()]; !scripted {
 			s.tr.add(map[string]any{"e": "end", "c": evt.HandlerID(), "prog": false, "conn": true})
 		}
 	case messaging.HookPosPortMsgSend:
-		m := ctx.Item.(testMsg)
+		m := ctx.Item.(messaging.Msg).Meta()
 		s.tr.add(map[string]any{"e": "send", "p": ctx.Domain.(messaging.Port).Name(), "m": int(m.ID), "dst": string(m.Dst)})
 	case messaging.HookPosPortMsgRecvd:
-		m := ctx.Item.(testMsg)
-		if want := s.sent[m.ID]; want != m {
-			s.bad = append(s.bad, fmt.Sprintf("message %d modified in flight: %+v vs %+v", m.ID, m, want))
+		msg := ctx.Item.(messaging.Msg)
+		if m, ok := msg.(testMsg); ok && m.Payload != payloadOf(m.ID) {
+			s.bad = append(s.bad, fmt.Sprintf("message %d modified in flight: %+v", m.ID, m))
 		}
-		s.tr.add(map[string]any{"e": "deliver", "p": ctx.Domain.(messaging.Port).Name(), "m": int(m.ID)})
+		s.tr.add(map[string]any{"e": "deliver", "p": ctx.Domain.(messaging.Port).Name(), "m": int(msg.Meta().ID)})
 	case messaging.HookPosPortMsgRetrieveIncoming:
-		m := ctx.Item.(testMsg)
-		s.tr.add(map[string]any{"e": "retr", "p": ctx.Domain.(messaging.Port).Name(), "m": int(m.ID)})
+		s.tr.add(map[string]any{"e": "retr", "p": ctx.Domain.(messaging.Port).Name(), "m": int(ctx.Item.(messaging.Msg).Meta().ID)})
 	case messaging.HookPosPortMsgRetrieveOutgoing:
-		m := ctx.Item.(testMsg)
-		s.tr.add(map[string]any{"e": "out", "p": ctx.Domain.(messaging.Port).Name(), "m": int(m.ID)})
+		s.tr.add(map[string]any{"e": "out", "p": ctx.Domain.(messaging.Port).Name(), "m": int(ctx.Item.(messaging.Msg).Meta().ID)})
 	}
 }
 
-func build(cfg SysCfg) *sys {
-	s := &sys{cfg: cfg, eng: timing.NewSerialEngine(), tr: &tracer{}, ports: map[string]messaging.Port{},
-		comps: map[string]*scomp{}, sent: map[uint64]testMsg{}}
-	regr := modeling.NewStandaloneRegistrar(s.eng)
+// Mut describes a deliberate difference of a rebuilt configuration (C07).
+type Mut struct {
+	Kind string `json:"kind"` // port_cap | spec | drop_entity | add_entity | storage_cap | conn_freq
+	Name string `json:"name"`
+}
+
+func build(cfg SysCfg) *sys { return buildWith(cfg, nil, "") }
+
+// buildWith builds the system either standalone (sim == nil) or registered with a
+// simulation (checkpointable). mut, when set, perturbs the configuration.
+func buildWith(cfg SysCfg, sim *simulation.Simulation, _ string, muts ...Mut) *sys {
+	s := &sys{cfg: cfg, tr: &tracer{}, ports: map[string]messaging.Port{}, comps: map[string]*scomp{}, sim: sim}
+	var regr modeling.Registrar
+	if sim != nil {
+		s.eng = sim.GetEngine().(*timing.SerialEngine)
+		regr = sim
+	} else {
+		s.eng = timing.NewSerialEngine()
+		regr = modeling.NewStandaloneRegistrar(s.eng)
+	}
+	is := func(kind, name string) bool {
+		for _, m := range muts {
+			if m.Kind == kind && (m.Name == name || m.Name == "") {
+				return true
+			}
+		}
+		return false
+	}
 	conns := map[string]*directconnection.Comp{}
 	cfgRec := map[string]any{"e": "config"}
 	compsRec, portsRec := map[string]any{}, map[string]any{}
 	for _, k := range cfg.Conns {
+		per := k.Period
+		if is("conn_freq", k.Name) {
+			per *= 2
+		}
 		conns[k.Name] = directconnection.MakeBuilder().WithRegistrar(regr).
-			WithSpec(directconnection.Spec{Freq: freqOf(k.Period)}).Build(k.Name)
+			WithSpec(directconnection.Spec{Freq: freqOf(per)}).Build(k.Name)
 		compsRec[k.Name] = map[string]any{"kind": "conn", "period": k.Period, "drain": false}
 	}
+	mkPort := func(owner messaging.Component, pc PortCfg) messaging.Port {
+		in, out := pc.In, pc.Out
+		if is("port_cap", pc.Name) {
+			in++
+		}
+		p := messaging.NewPort(owner, in, out, pc.Name)
+		regr.RegisterPort(p)
+		p.AcceptHook(s)
+		conns[pc.Conn].PlugIn(p)
+		s.ports[pc.Name] = p
+		return p
+	}
 	for _, cc := range cfg.Comps {
+		if is("drop_entity", cc.Name) {
+			continue
+		}
+		if cc.Kind == "mem" {
+			capacity := uint64(cc.Cap)
+			if is("storage_cap", cc.Name) {
+				capacity *= 2
+			}
+			spec := idealmemcontroller.DefaultSpec()
+			spec.Capacity = capacity
+			spec.Latency = cc.Latency
+			spec.Freq = freqOf(cc.Period)
+			if is("spec", cc.Name) {
+				spec.Latency++
+			}
+			storage := mem.MakeStorageBuilder().WithCapacity(capacity).WithUnitSize(64).WithSimulation(regr).Build(cc.Name + ".Storage")
+			mc := idealmemcontroller.MakeBuilder().WithRegistrar(regr).WithSpec(spec).
+				WithResources(idealmemcontroller.Resources{Storage: storage}).Build(cc.Name)
+			for _, pc := range cc.Ports {
+				p := mkPort(mc, pc)
+				short := pc.Name[len(cc.Name)+1:]
+				mc.AssignPort(short, p)
+				portsRec[pc.Name] = map[string]any{"owner": cc.Name, "conn": pc.Conn, "icap": pc.In, "ocap": pc.Out}
+			}
+			compsRec[cc.Name] = map[string]any{"kind": "tick", "period": cc.Period, "drain": false}
+			continue
+		}
 		c := &scomp{s: s, cfg: cc}
+		spec := edSpec{Kind: cc.Kind, Period: cc.Period, Script: len(cc.Script)}
+		if is("spec", cc.Name) {
+			spec.Script += 100
+		}
 		if cc.Kind == "ed" {
 			c.ed = modeling.NewEventDrivenBuilder[edSpec, edState, modeling.None]().WithEngine(s.eng).
-				WithSpec(edSpec{Kind: "ed"}).WithProcessor(c).Build(cc.Name)
+				WithSpec(spec).WithProcessor(c).Build(cc.Name)
 			c.owner = c.ed
+			regr.RegisterComponent(c.ed)
 		} else {
 			c.tc = modeling.NewBuilder[edSpec, edState, modeling.None]().WithEngine(s.eng).WithFreq(freqOf(cc.Period)).
-				WithSpec(edSpec{Kind: "tick"}).Build(cc.Name)
+				WithSpec(spec).Build(cc.Name)
 			c.tc.AddMiddleware(c)
 			c.owner = c.tc
+			regr.RegisterComponent(c.tc)
 		}
 		for _, pc := range cc.Ports {
-			p := messaging.NewPort(c.owner, pc.In, pc.Out, pc.Name)
-			p.AcceptHook(s)
-			conns[pc.Conn].PlugIn(p)
-			s.ports[pc.Name] = p
-			c.ports = append(c.ports, p)
+			c.ports = append(c.ports, mkPort(c.owner, pc))
 			portsRec[pc.Name] = map[string]any{"owner": cc.Name, "conn": pc.Conn, "icap": pc.In, "ocap": pc.Out}
 		}
 		s.comps[cc.Name] = c
 		compsRec[cc.Name] = map[string]any{"kind": cc.Kind, "period": cc.Period, "drain": cc.Drain && cc.Stall == 0}
+	}
+	if is("add_entity", "ExtraEntity") {
+		x := modeling.NewEventDrivenBuilder[edSpec, edState, modeling.None]().WithEngine(s.eng).
+			WithSpec(edSpec{Kind: "ed"}).WithProcessor(&scomp{s: s}).Build("ExtraEntity")
+		regr.RegisterComponent(x)
 	}
 	cfgRec["comps"], cfgRec["ports"] = compsRec, portsRec
 	s.tr.add(cfgRec)
@@ -238,9 +357,12 @@ func build(cfg SysCfg) *sys {
 	return s
 }
 
-func (s *sys) run() {
+func (s *sys) kick() {
 	for _, in := range s.cfg.Init {
-		c := s.comps[in.Comp]
+		c, ok := s.comps[in.Comp]
+		if !ok {
+			continue
+		}
 		if c.ed != nil {
 			c.ed.ScheduleWakeAt(timing.VTimeInPicoSec(in.At))
 		} else {
@@ -248,11 +370,22 @@ func (s *sys) run() {
 			c.tc.TickNow()
 		}
 	}
+}
+
+func (s *sys) run() {
+	s.kick()
 	_ = s.eng.Run()
+	s.quiesce()
+}
+
+func (s *sys) quiesce() {
 	var ports []map[string]any
 	for _, cc := range s.cfg.Comps {
 		for _, pc := range cc.Ports {
-			p := s.ports[pc.Name]
+			p, ok := s.ports[pc.Name]
+			if !ok {
+				continue
+			}
 			rec := map[string]any{"p": pc.Name, "nout": p.NumOutgoing(), "nin": p.NumIncoming(), "headdst": "", "candeliver": false}
 			if h := p.PeekOutgoing(); h != nil {
 				dst := string(h.Meta().Dst)
@@ -381,6 +514,8 @@ func connStress(rng *rand.Rand, maxMsgs int) SysCfg {
 
 func init() {
 	messaging.RegisterMsg(testMsg{})
+	registerCkpt()
+	registerCkptMut()
 	// tick_trace: given and/or random systems run on the real code, traced for TickTrace.tla
 	reg.Register("tick_trace", func(raw json.RawMessage) (any, error) {
 		var in struct {
